@@ -333,4 +333,268 @@ theorem ofNet_inv (net : Net W) (fn : FastNet W) (h : ofNet net = .ok fn) :
             simp only [Except.ok.injEq] at h
             exact ⟨b1, c1, b2, c2, b3, c3, h1, h2, h3, h.symm⟩
 
+/-! ### 5. the connection list of the translated network (Kind A) -/
+
+def incOf (net : Net W) (i : Nat) : List (NLink W) := ((net.nodes[i]?).map (·.incoming)).getD []
+
+/-- the connections of node `i` in the fast network -/
+def connsOf (net : Net W) (i : Nat) : List (FLink W) := connsFor net (idx net i) (incOf net i)
+
+/-- nodes in the order the three `processIncomingConnections` passes visit them -/
+def procList (net : Net W) : List Nat := idxOfKind net Kind.input ++ idxOfKind net Kind.hidden ++ net.outputs
+
+theorem incOf_eq (net : Net W) (i : Nat) (nd : NNodeS W) (h : net.nodes[i]? = some nd) : incOf net i = nd.incoming := by
+  simp [incOf, h]
+
+structure TIA (net : Net W) (done : List Nat) (b : List W) (c : List (FLink W)) : Prop where
+  len : b.length = net.nodes.length
+  conns : c = done.flatMap (connsOf net)
+  self : ∀ i ∈ done, i ∈ orderOf net
+  src : ∀ i ∈ done, ∀ l ∈ incOf net i, l.src ∈ orderOf net
+  nob : (∀ j, isBiasAt net j = false) → ∀ t, getW b t = Scalar.zero
+
+theorem TIA_step (net : Net W) {lvl : Nat → Nat} (hwf : TWF net lvl) (done : List Nat) (i : Nat) (nd : NNodeS W) (t : Nat)
+    (b : List W) (c : List (FLink W)) (b1 : List W) (c1 : List (FLink W)) (hn : net.nodes[i]? = some nd)
+    (hl : lookupId (lkOf net) nd.id = some t)
+    (hlinks : procIncoming.links net (lkOf net) t nd.incoming b c = .ok (b1, c1)) (hP : TIA net done b c) :
+    TIA net (done ++ [i]) b1 c1 := by
+  obtain ⟨hmem, ht⟩ := lookup_idx net hwf i t nd hn hl
+  obtain ⟨h1, h2, h3, h4⟩ := links_shape net hwf t nd.incoming b c b1 c1 hlinks
+  have hinc := incOf_eq net i nd hn
+  refine ⟨by rw [h2, hP.len], ?_, ?_, ?_, fun hno t' => ?_⟩
+  · rw [h1, hP.conns, List.flatMap_append]
+    simp [connsOf, hinc, ht]
+  · intro i' hi'
+    rcases List.mem_append.mp hi' with h | h
+    · exact hP.self i' h
+    · simp only [List.mem_singleton] at h; subst h; exact hmem
+  · intro i' hi'
+    rcases List.mem_append.mp hi' with h | h
+    · exact hP.src i' h
+    · simp only [List.mem_singleton] at h; subst h; rw [hinc]; exact h3
+  · rw [h4 (fun l _ => hno l.src)]
+    exact hP.nob hno t'
+
+theorem procList_split (net : Net W) :
+    procList net = [] ++ idxOfKind net Kind.input ++ (idxOfKind net Kind.hidden ++ net.outputs) ∧
+    procList net = idxOfKind net Kind.input ++ idxOfKind net Kind.hidden ++ net.outputs ∧
+    procList net = (idxOfKind net Kind.input ++ idxOfKind net Kind.hidden) ++ net.outputs ++ [] := by
+  simp [procList]
+
+/-- what `ofNet` returns, field by field -/
+structure OfNet (net : Net W) (fn : FastNet W) : Prop where
+  nBias : fn.nBias = (idxOfKind net Kind.bias).length
+  nInput : fn.nInput = (idxOfKind net Kind.input).length
+  nOutput : fn.nOutput = net.outputs.length
+  nTotal : fn.nTotal = net.nodes.length
+  acts : fn.acts = ((orderOf net).map fun i => (net.nodes[i]?).map (·.act) |>.getD 0) ++
+               List.replicate (net.nodes.length - (orderOf net).length) 0
+  tia : TIA net (procList net) fn.biasList fn.conns
+
+theorem ofNet_facts (net : Net W) {lvl : Nat → Nat} (hwf : TWF net lvl) (fn : FastNet W) (h : ofNet net = .ok fn) :
+    OfNet net fn := by
+  obtain ⟨b1, c1, b2, c2, b3, c3, h1, h2, h3, rfl⟩ := ofNet_inv net fn h
+  refine ⟨rfl, rfl, rfl, rfl, rfl, ?_⟩
+  have step := fun done i (rest : List Nat) nd t b c b1 c1 (_ : procList net = done ++ i :: rest) hn hl hlinks hP =>
+    TIA_step net hwf done i nd t b c b1 c1 hn hl hlinks hP
+  have rule := procIncoming_inv net (lkOf net) (TIA net) (procList net) step
+  obtain ⟨s1, s2, s3⟩ := procList_split net
+  have t0 : TIA net [] (List.replicate net.nodes.length (Scalar.zero : W)) [] :=
+    ⟨by simp, by simp, by simp, by simp, fun _ t => getW_replicate_zero _ t⟩
+  have t1 := rule _ [] _ _ _ _ _ s1 h1 t0
+  have t2 := rule _ _ _ _ _ _ _ s2 h2 t1
+  have t3 := rule _ _ [] _ _ _ _ s3 h3 t2
+  exact t3
+
+/-! ### 6. positions in the index order -/
+
+theorem order_split (net : Net W) :
+    orderOf net = (idxOfKind net Kind.bias ++ idxOfKind net Kind.input) ++ (net.outputs ++ idxOfKind net Kind.hidden) := by
+  simp [orderOf]
+
+theorem nSensor_eq (net : Net W) (fn : FastNet W) (h : OfNet net fn) :
+    fn.nSensor = (idxOfKind net Kind.bias ++ idxOfKind net Kind.input).length := by
+  simp [FastNet.nSensor, h.nBias, h.nInput]
+
+theorem mem_sensorPart (net : Net W) (j : Nat) :
+    j ∈ idxOfKind net Kind.bias ++ idxOfKind net Kind.input ↔ ∃ nd, net.nodes[j]? = some nd ∧ nd.isSensor = true := by
+  simp only [List.mem_append, mem_idxOfKind, NNodeS.isSensor, Bool.or_eq_true, beq_iff_eq]
+  constructor
+  · rintro (⟨nd, h1, h2⟩ | ⟨nd, h1, h2⟩)
+    · exact ⟨nd, h1, Or.inr h2⟩
+    · exact ⟨nd, h1, Or.inl h2⟩
+  · rintro ⟨nd, h1, h2 | h2⟩
+    · exact Or.inr ⟨nd, h1, h2⟩
+    · exact Or.inl ⟨nd, h1, h2⟩
+
+theorem idx_sensor (net : Net W) (fn : FastNet W) (h : OfNet net fn) (j : Nat) (nd : NNodeS W)
+    (hj : net.nodes[j]? = some nd) (hs : nd.isSensor = true) : idx net j < fn.nSensor := by
+  have hm := (mem_sensorPart net j).mpr ⟨nd, hj, hs⟩
+  rw [nSensor_eq net fn h]
+  unfold idx
+  rw [order_split, List.idxOf_append_of_mem hm]
+  exact List.idxOf_lt_length_iff.mpr hm
+
+theorem idx_neuron (net : Net W) (fn : FastNet W) (h : OfNet net fn) (j : Nat) (nd : NNodeS W)
+    (hj : net.nodes[j]? = some nd) (hs : nd.isSensor = false) : fn.nSensor ≤ idx net j := by
+  have hm : j ∉ idxOfKind net Kind.bias ++ idxOfKind net Kind.input := by
+    intro hm
+    obtain ⟨nd', h1, h2⟩ := (mem_sensorPart net j).mp hm
+    rw [hj] at h1
+    simp only [Option.some.injEq] at h1
+    subst h1
+    rw [hs] at h2
+    simp at h2
+  rw [nSensor_eq net fn h]
+  unfold idx
+  rw [order_split, List.idxOf_append_of_notMem hm]
+  omega
+
+/-- a fast index at or beyond the sensors holds a listed output or a hidden node, i.e. a processed neuron -/
+theorem order_neuron (net : Net W) {lvl : Nat → Nat} (hwf : TWF net lvl) (fn : FastNet W) (h : OfNet net fn) (t : Nat)
+    (h1 : fn.nSensor ≤ t) (h2 : t < fn.nTotal) :
+    ∃ j nd, (orderOf net)[t]? = some j ∧ j ∈ procList net ∧ net.nodes[j]? = some nd ∧ nd.isSensor = false := by
+  rw [h.nTotal, ← hwf.len] at h2
+  rw [nSensor_eq net fn h] at h1
+  obtain ⟨j, hget⟩ : ∃ j, (orderOf net)[t]? = some j := ⟨_, List.getElem?_eq_getElem h2⟩
+  have hget' := hget
+  rw [order_split, List.getElem?_append_right h1] at hget'
+  have hmem := List.mem_of_getElem? hget'
+  refine ⟨j, ?_⟩
+  rcases List.mem_append.mp hmem with hm | hm
+  · obtain ⟨nd, hn, hk⟩ := hwf.outK _ hm
+    exact ⟨nd, hget, by simp [procList, hm], hn, by simp [NNodeS.isSensor, hk, Kind.output, Kind.input, Kind.bias]⟩
+  · obtain ⟨nd, hn, hk⟩ := (mem_idxOfKind net _ _).mp hm
+    exact ⟨nd, hget, by simp [procList, hm], hn, by simp [NNodeS.isSensor, hk, Kind.hidden, Kind.input, Kind.bias]⟩
+
+/-- the `k`-th listed output has fast index `nSensor + k` -/
+theorem idx_output (net : Net W) {lvl : Nat → Nat} (hwf : TWF net lvl) (fn : FastNet W) (h : OfNet net fn) (k : Nat)
+    (hk : k < net.outputs.length) : idx net (net.outputs[k]) = fn.nSensor + k := by
+  apply idx_of_get net hwf
+  rw [nSensor_eq net fn h, order_split, List.getElem?_append_right (by omega), Nat.add_sub_cancel_left,
+    List.getElem?_append_left hk]
+  exact List.getElem?_eq_getElem hk
+
+theorem procList_mem_order (net : Net W) (j : Nat) (hj : j ∈ procList net) : j ∈ orderOf net := by
+  simp only [procList, orderOf, List.mem_append] at hj ⊢
+  rcases hj with (h | h) | h
+  · exact Or.inl (Or.inl (Or.inr h))
+  · exact Or.inr h
+  · exact Or.inl (Or.inr h)
+
+theorem procList_nodup (net : Net W) {lvl : Nat → Nat} (hwf : TWF net lvl) : (procList net).Nodup := by
+  have h := order_nodup net hwf
+  rw [order_split, List.append_assoc] at h
+  have h2 := (List.nodup_append.mp h).2.1
+  have hp : List.Perm (procList net) (idxOfKind net Kind.input ++ (net.outputs ++ idxOfKind net Kind.hidden)) := by
+    unfold procList
+    rw [List.append_assoc]
+    exact List.Perm.append_left _ List.perm_append_comm
+  exact hp.nodup_iff.mpr h2
+
+/-! ### 7. the translated network satisfies the hypotheses of the fast-solver theorems (Kind A) -/
+
+/-- rank of a fast index = rank of the node it stands for -/
+def lvlF (net : Net W) (lvl : Nat → Nat) (t : Nat) : Nat := lvl ((orderOf net).getD t 0)
+
+theorem lvlF_idx (net : Net W) {lvl : Nat → Nat} (hwf : TWF net lvl) (j : Nat) (hj : j ∈ orderOf net) :
+    lvlF net lvl (idx net j) = lvl j := by
+  unfold lvlF
+  rw [order_idx net hwf j hj]
+
+theorem lvlF_get (net : Net W) (lvl : Nat → Nat) (t j : Nat) (h : (orderOf net)[t]? = some j) : lvlF net lvl t = lvl j := by
+  unfold lvlF
+  rw [List.getD_eq_getElem?_getD, h]
+  rfl
+
+theorem mem_connsOf (net : Net W) (i : Nat) (c : FLink W) :
+    c ∈ connsOf net i ↔ ∃ l ∈ incOf net i, isBiasAt net l.src = false ∧
+      c = { src := idx net l.src, dst := idx net i, w := l.w } := by
+  simp only [connsOf, connsFor, List.mem_map, List.mem_filter, Bool.not_eq_true']
+  constructor
+  · rintro ⟨l, ⟨h1, h2⟩, rfl⟩; exact ⟨l, h1, h2, rfl⟩
+  · rintro ⟨l, h1, h2, rfl⟩; exact ⟨l, ⟨h1, h2⟩, rfl⟩
+
+theorem mem_conns (net : Net W) (fn : FastNet W) (h : OfNet net fn) (c : FLink W) (hc : c ∈ fn.conns) :
+    ∃ i ∈ procList net, ∃ l ∈ incOf net i, isBiasAt net l.src = false ∧
+      c = { src := idx net l.src, dst := idx net i, w := l.w } := by
+  rw [h.tia.conns, List.mem_flatMap] at hc
+  obtain ⟨i, hi, hc⟩ := hc
+  exact ⟨i, hi, (mem_connsOf net i c).mp hc⟩
+
+theorem acts_get (net : Net W) (fn : FastNet W) (h : OfNet net fn) (t j : Nat) (nd : NNodeS W)
+    (hget : (orderOf net)[t]? = some j) (hn : net.nodes[j]? = some nd) : fn.acts.getD t 0 = nd.act := by
+  have ht : t < (orderOf net).length := (List.getElem?_eq_some_iff.mp hget).1
+  rw [h.acts, List.getD_eq_getElem?_getD, List.getElem?_append_left (by simpa using ht), List.getElem?_map, hget]
+  simp [hn]
+
+/-- a neuron of a feed-forward network has rank ≥ 1 and its sources rank below it -/
+theorem neuron_facts (net : Net W) (lvl : Nat → Nat) (hff : Solver.FFProps net lvl) (i : Nat) (nd : NNodeS W)
+    (hi : net.nodes[i]? = some nd) (hs : nd.isSensor = false) :
+    nd.isNeuron = true ∧ 1 ≤ lvl i ∧ ∀ l ∈ nd.incoming, lvl l.src < lvl i := by
+  obtain ⟨h1, hne, hl⟩ := Solver.ffNode_neuron net lvl i nd (hff.node i nd hi) hs
+  obtain ⟨l, hl'⟩ := List.exists_mem_of_ne_nil _ hne
+  have := (hl l hl').2.2
+  exact ⟨h1, by omega, fun l hl' => (hl l hl').2.2⟩
+
+theorem valid_lt (net : Net W) (i : Nat) (nd : NNodeS W) (hi : net.nodes[i]? = some nd) : i < net.nodes.length :=
+  (List.getElem?_eq_some_iff.mp hi).1
+
+theorem translated_FFAll (net : Net W) (σ : Nat → W → Option W) (lvl : Nat → Nat) (hff : Solver.FFProps net lvl)
+    (hwf : TWF net lvl) (fn : FastNet W) (h : OfNet net fn)
+    (hσ : ∀ (i : Nat) (nd : NNodeS W), net.nodes[i]? = some nd → nd.isNeuron = true → ∀ x, (σ nd.act x).isSome = true) :
+    FFAll fn σ (lvlF net lvl) := by
+  have hlen : fn.nTotal = (orderOf net).length := by rw [h.nTotal, hwf.len]
+  refine ⟨⟨fun c hc => ?_, fun t ht => ?_, ?_⟩, ?_, fun t h1 h2 => ?_, fun t h1 h2 => ?_⟩
+  · -- every connection goes up in rank
+    obtain ⟨i, hi, l, hl, _, rfl⟩ := mem_conns net fn h c hc
+    have hio := procList_mem_order net i hi
+    have hso := h.tia.src i hi l hl
+    obtain ⟨nd, hn⟩ := order_valid net hwf i hio
+    simp only
+    rw [lvlF_idx net hwf _ hso, lvlF_idx net hwf _ hio, hlen]
+    refine ⟨?_, idx_lt net hwf _ hso⟩
+    rw [incOf_eq net i nd hn] at hl
+    by_cases hs : nd.isSensor = true
+    · rw [hwf.sens i nd hn hs] at hl; simp at hl
+    · exact (neuron_facts net lvl hff i nd hn (by simpa using hs)).2.2 l hl
+  · -- ranks are bounded
+    rw [hlen] at ht
+    have hget : (orderOf net)[t]? = some (orderOf net)[t] := List.getElem?_eq_getElem ht
+    rw [lvlF_get net lvl t _ hget, h.nTotal]
+    obtain ⟨nd, hn⟩ := order_valid net hwf _ (List.mem_of_getElem? hget)
+    exact hwf.bound _ (valid_lt net _ nd hn)
+  · rw [nSensor_eq net fn h, h.nOutput, hlen, order_split]
+    simp only [List.length_append]
+    omega
+  · -- no pair of fast indices is joined twice
+    unfold NoDupConn
+    rw [h.tia.conns, List.pairwise_flatMap]
+    constructor
+    · intro i hi
+      have hio := procList_mem_order net i hi
+      obtain ⟨nd, hn⟩ := order_valid net hwf i hio
+      have hnd := hwf.srcND i nd hn
+      rw [← incOf_eq net i nd hn] at hnd
+      unfold connsOf connsFor
+      rw [List.pairwise_map]
+      apply List.Pairwise.filter
+      have hp : (incOf net i).Pairwise (fun a b => a.src ≠ b.src) := List.pairwise_map.mp hnd
+      refine List.Pairwise.imp_of_mem ?_ hp
+      intro a b ha hb hab hh
+      exact hab (idx_inj net hwf _ _ (h.tia.src i hi a ha) (h.tia.src i hi b hb) hh.1)
+    · refine (procList_nodup net hwf).pairwise_of_forall_ne ?_
+      intro i hi i' hi' hne x hx y hy hh
+      obtain ⟨_, _, _, rfl⟩ := (mem_connsOf net i x).mp hx
+      obtain ⟨_, _, _, rfl⟩ := (mem_connsOf net i' y).mp hy
+      exact hne (idx_inj net hwf _ _ (procList_mem_order net i hi) (procList_mem_order net i' hi') hh.2)
+  · -- neurons have rank ≥ 1
+    obtain ⟨j, nd, hget, _, hn, hs⟩ := order_neuron net hwf fn h t h1 h2
+    rw [lvlF_get net lvl t j hget]
+    exact (neuron_facts net lvl hff j nd hn hs).2.1
+  · -- activation types of the neurons are registered
+    obtain ⟨j, nd, hget, _, hn, hs⟩ := order_neuron net hwf fn h t h1 h2
+    rw [acts_get net fn h t j nd hget hn]
+    exact hσ j nd hn (neuron_facts net lvl hff j nd hn hs).1
+
 end GoNeat.Fast
